@@ -41,9 +41,11 @@ RULE = ("A case is one crash image of a recorded regtest workload (block connect
         "the process was stopped before, crash semantics: K kill / PB power loss back to the last completed sync barrier / PD power loss "
         "dropping every write that is not durable under the ordered-journal rule). Each image is rebuilt from the strace log on top of "
         "the durable base image and the real start-up path is run on it. Distinct = distinct (recording, k, semantics); all are "
-        "non-trivial (the recorded run starts after the base image, so every k lies inside the workload). quick: recording R1, all "
-        "create/rename/unlink/truncate boundaries, a stratified sample of sync boundaries and random points (about 100 k) x {K,PB,PD}; "
-        "thorough: R1-R3, every state-changing or sync operation x {K,PB,PD} plus the exploratory strict-POSIX pass.")
+        "non-trivial (the recorded run starts after the base image, so every k lies inside the workload). Crash points per recording: every "
+        "create/rename/unlink/truncate/fallocate boundary (before and after), a stratified sample of sync boundaries per class of synced "
+        "path, points of every phase class (mid-batch, between index and coins write, mid-reorg, prune) and random points; quick: recording "
+        "R1 (linear connects, flushes, two or more reorgs), about 110 k x {K,PB,PD}; thorough: R1-R3 (R2 reorg-heavy, R3 pruning), about "
+        "450 k each x {K,PB,PD}, plus an exploratory strict-POSIX pass on a quarter of the points (never a violation).")
 ASSUMPTIONS = [
     "datadir creation (phase init) is taken as fully durable: first-run initialisation writes blocks/xor.dat and LevelDB's first MANIFEST without fsync, which is outside the quantifier of C16",
     "ordered-journal durability model (ext4/xfs-like): file data durable after a later fsync/fdatasync of that file, metadata after any later sync; a write(2) is atomic; power loss drops a suffix of the not-yet-durable operations",
@@ -239,19 +241,21 @@ def _sync_class(op):
 
 
 def choose_points(r, tier, rng, want):
+    """Crash points to explore: every boundary of a create/rename/unlink/truncate/fallocate/mkdir, a stratified sample of sync
+    boundaries (per class of synced path), points of every phase class, then random points up to `want` (0 = all)."""
     sim = r.sim
     cps = sim.crash_points()
-    if tier == "thorough" or want <= 0 or want >= len(cps):
+    if want <= 0 or want >= len(cps):
         return cps
     cpset = set(cps)
-    chosen = set()
+    mandatory = []
 
     def around(i):
         # crash just before op i and just after it
-        chosen.add(i)
+        mandatory.append(i)
         nxt = next((c for c in cps if c > i), None)
         if nxt is not None:
-            chosen.add(nxt)
+            mandatory.append(nxt)
 
     classes = {}
     for op in sim.ops:
@@ -259,10 +263,15 @@ def choose_points(r, tier, rng, want):
             around(op.idx)
         elif op.kind in disksim.SYNC_KINDS:
             classes.setdefault(_sync_class(op), []).append(op.idx)
+    per_class = 3 if tier == "quick" else 12
     for c in sorted(classes):
         lst = classes[c]
-        for i in rng.sample(lst, min(3, len(lst))):
+        for i in rng.sample(lst, min(per_class, len(lst))):
             around(i)
+    mandatory = sorted(set(m for m in mandatory if m in cpset))
+    if len(mandatory) > (want * 3) // 4:
+        mandatory = rng.sample(mandatory, (want * 3) // 4)
+    chosen = set(mandatory)
     # phase classes that must be present
     need = {"img_mid_batch": 8, "img_between_index_and_coins": 5, "img_mid_reorg": 8, "img_prune": 6}
     order = list(cps)
@@ -390,8 +399,10 @@ def judge(r, k, res):
                       {"stderr_tail": tail, "debuglog_tail": res.get("debuglog_tail")}))
         return v
     if not out.get("ok"):
-        v.append(("recovery-failed@" + out.get("failed", "?"), "start-up failed at %s: %s" % (out.get("failed"), out.get("detail")),
-                  {"detail": out.get("detail"), "debuglog_tail": res.get("debuglog_tail")}))
+        fn = re.sub(r"[^A-Za-z0-9_:]", "", out.get("first_error_fn") or "")[:40]
+        v.append(("recovery-failed@" + out.get("failed", "?") + ("/" + fn if fn else ""),
+                  "start-up failed at %s: %s; first error logged: [%s] %s" % (out.get("failed"), out.get("detail"), out.get("first_error_fn"), out.get("first_error")),
+                  {"detail": out.get("detail"), "first_error": out.get("first_error"), "first_error_fn": out.get("first_error_fn")}))
         return v
     # (b) recovered tip (before ActivateBestChain) is null or a block whose connection the journal shows before k, with exactly its UTXO set
     pre = out.get("pre_tip")
@@ -440,8 +451,10 @@ def pipeline(tier, seed, workdir, vh, report, recs=None, want=None, sems=None, o
     rng = random.Random(seed * 1000003 + 17)
     if recs is None:
         recs = [1] if tier == "quick" else [1, 2, 3]
+        if os.environ.get("C16_RECS"):  # development: slice of the recordings
+            recs = [int(x) for x in os.environ["C16_RECS"].split(",")]
     if want is None:
-        want = int(os.environ.get("C16_POINTS", "100")) if tier == "quick" else 0
+        want = int(os.environ.get("C16_POINTS", "110" if tier == "quick" else "450"))
     out = open(report, "w")
 
     def emit(o):
@@ -474,9 +487,9 @@ def pipeline(tier, seed, workdir, vh, report, recs=None, want=None, sems=None, o
         pts = choose_points(r, tier, rng, want)
         for k in pts:
             for sem in (sems or SEMS) + tuple(exploratory):
-                if sem == "PR" and rng.random() > 0.05:
+                if sem == "PR" and rng.random() > 0.03:
                     continue
-                if sem == "SPD" and tier == "quick" and rng.random() > 0.25:
+                if sem == "SPD" and rng.random() > 0.25:
                     continue
                 if only is not None and (r.name, k, sem) not in only:
                     continue
@@ -487,7 +500,9 @@ def pipeline(tier, seed, workdir, vh, report, recs=None, want=None, sems=None, o
                     jobs.append((r.name, images[key], k, j, variant, vh, workdir, seed, int(os.environ.get("C16_RECOVER_TIMEOUT", "600"))))
                 pairs.append((r.name, k, sem, images[key], sem in SEMS, j, variant))
     results = {}
-    nproc = max(1, min(NJOBS, len(jobs)))
+    # same load-dependent throttle as the driver's shard pool
+    par = NJOBS if (os.getloadavg()[0] < 3 * NJOBS or "VERIF_JOBS" in os.environ) else max(4, NJOBS // 3)
+    nproc = max(1, min(par, len(jobs)))
     early = bool(os.environ.get("C16_EARLY_STOP"))  # development aid for mutant runs: stop recovering at the first decisive violation
     if early:
         rng.shuffle(jobs)
